@@ -445,20 +445,23 @@ class KademliaProtocol(DatagramProtocol):
             log.debug("error raised handling %s request from %s:%i - %s(%s)",
                       request_datagram.method, peer.address, peer.udp_port, str(type(err)),
                       str(err))
-            self.send_error(
-                peer,
-                ErrorDatagram(ERROR_TYPE, request_datagram.rpc_id, self.node_id, str(type(err)).encode(),
-                              str(err).encode())
-            )
+            self._reply_with_error(peer, request_datagram, err)
         except Exception as err:
             log.warning("error raised handling %s request from %s:%i - %s(%s)",
                         request_datagram.method, peer.address, peer.udp_port, str(type(err)),
                         str(err))
+            self._reply_with_error(peer, request_datagram, err)
+
+    def _reply_with_error(self, peer: 'KademliaPeer', request_datagram: RequestDatagram, err: Exception):
+        # the error text may echo data supplied by the peer: keep the reply below the datagram size limit
+        text = str(err).encode()[:512].decode(errors='ignore').encode()
+        try:
             self.send_error(
                 peer,
-                ErrorDatagram(ERROR_TYPE, request_datagram.rpc_id, self.node_id, str(type(err)).encode(),
-                              str(err).encode())
+                ErrorDatagram(ERROR_TYPE, request_datagram.rpc_id, self.node_id, str(type(err)).encode(), text)
             )
+        except (ValueError, OSError, TransportNotConnected) as send_err:
+            log.warning("could not send error reply to %s:%i - %s", peer.address, peer.udp_port, str(send_err))
 
     def handle_response_datagram(self, address: typing.Tuple[str, int], response_datagram: ResponseDatagram):
         # Find the message that triggered this response
